@@ -45,7 +45,10 @@ macro_rules! impl_prim_type_hash {
 
         impl MaxSizeOf for $ty {
             fn max_size_of() -> usize {
-                size_of::<$ty>()
+                // Maximized with the alignment, so that zero-sized types
+                // (i.e., `()`) never return zero, which is not a valid
+                // alignment unit.
+                core::cmp::max(size_of::<$ty>(), core::mem::align_of::<$ty>())
             }
         }
     )*};
@@ -260,7 +263,8 @@ impl<T: ?Sized> CopyType for PhantomData<T> {
 
 impl<T: ?Sized> MaxSizeOf for PhantomData<T> {
     fn max_size_of() -> usize {
-        0
+        // Zero is not a valid alignment unit
+        core::mem::align_of::<Self>()
     }
 }
 
